@@ -142,6 +142,20 @@ CHECKS = {
                 "cell; exactness of the partition is derived from the comparison/division constants found in the function "
                 "(shape outside the understood forms => ANALYSIS-ERROR).",
     },
+    "C09": {
+        "technique": "static analysis: who-writes / who-calls effect rules, guard facts on admission stores and SUCCESS "
+                     "constructions, truth-condition extraction of Certificate.verify, structural rules on the issuing API",
+        "text": "Decides: the four trust dictionaries are written only by CertificateLibrary.add_*; roots are admitted only from "
+                "the library constructor (configured roots); every admission store puts the checked certificate under its own "
+                "HashedId8, after certificate.verify(backend) and - except roots - a non-None issuer found in the library's "
+                "dictionaries; every True answer of Certificate.verify carries issuer correspondence, permission containment "
+                "(needed = certIssuePermissions + appPermissions, all-in issuer's allowed) and the signature under the issuer's "
+                "(resp. own) key; a SUCCESS verdict requires PSID in the ticket's appPermissions and generationTime within "
+                "validity (both reported as known findings today); issue_certificate signs a non-self-signed subject only under "
+                "permission containment and chain-length budget, and set_chain_length_issue_permissions decrements every "
+                "permission on every path and removes exhausted ones. Does NOT decide forged chains as values.",
+        "note": _BASE_NOTE + "Two findings are listed in KNOWN_FINDINGS.txt (msg-psid, msg-validity): pinned by mocked tests.",
+    },
 }
 
 NOT_APPLICABLE = {}
